@@ -70,3 +70,48 @@ impl<K, V, const N: usize> Map<K, V, N> {
 /// (assumed: vstd has no specification for it).  It may unwind.
 pub assume_specification<T>[ core::mem::drop::<T> ](x: T)
     opens_invariants none;
+
+/// `core::mem::replace(dest, src)` stores `src` and returns the previous value
+/// (assumed: vstd has no specification for it).
+pub assume_specification<T>[ core::mem::replace::<T> ](dest: &mut T, src: T) -> (r: T)
+    ensures *final(dest) == src, r == *old(dest),
+    opens_invariants none
+    no_unwind;
+
+impl<'a, K, V, const N: usize> OccupiedEntry<'a, K, V, N> {
+    /// the entry points at a live slot of a well-formed table
+    pub closed spec fn wf(&self) -> bool {
+        self.table.wf_weak() && self.index < self.table.slen()
+    }
+
+    /// the (key, value) the entry stands for
+    pub closed spec fn cur(&self) -> (K, V) {
+        self.table.slot(self.index as int).unwrap()
+    }
+
+    /// the table as the entry sees it now / when the borrow ends
+    pub closed spec fn tbl(&self) -> Map<K, V, N> {
+        *self.table
+    }
+
+    #[verifier::prophetic]
+    pub closed spec fn tbl_after(&self) -> Map<K, V, N> {
+        *final(self.table)
+    }
+
+    pub closed spec fn idx(&self) -> usize {
+        self.index
+    }
+}
+
+impl<K, V, const N: usize> VacantEntry<'_, K, V, N> {
+    pub closed spec fn vkey(&self) -> K {
+        self.key
+    }
+}
+
+impl<T, const N: usize> Set<T, N> {
+    pub closed spec fn inner(&self) -> Map<T, (), N> {
+        self.map
+    }
+}
